@@ -268,6 +268,22 @@ C["C04"]["harnesses"] += [
     H("ZZVerifyFindsDamage", "torrent", "a complete, seeding torrent is verified by hand; the verification finds an arbitrary subset of the pieces: it ends stopped with the completion flag == every piece verified; started again it is Seeding only if every piece verified, else Downloading; lifecycle invariant after every step", T(40, 600, flags=["-nospawn"]), T(40, 600, flags=["-nospawn"]), replay="model"),
 ]
 
+# Thorough-only harnesses that were written but whose thorough bounds were never run to completion on the
+# unchanged tree within the time available are not registered (a check is registered only with bounds that ran
+# clean): they stay in the harness files and can be run with bin/gosym directly.
+NOT_RUN_CLEAN = {"ZZAdversary3", "ZZSectionRW3", "ZZPathsConfined2", "ZZReaderFirst", "ZZMessageTwo", "ZZPickerSeq4",
+                 "ZZPickerSequential4", "ZZPickerRich2", "ZZHonestPiece", "ZZMetadataAdopt5", "ZZWriterQueueCap6",
+                 "ZZStreeExact3", "ZZDialAdmission5", "ZZAddrListSeq5", "ZZPickerWebseed4"}
+for pid, spec in C.items():
+    spec["harnesses"] = [h for h in spec["harnesses"] if h["fn"] not in NOT_RUN_CLEAN]
+    seen = set()
+    uniq = []
+    for h in spec["harnesses"]:
+        if h["fn"] not in seen:
+            seen.add(h["fn"])
+            uniq.append(h)
+    spec["harnesses"] = uniq
+
 for pid, spec in C.items():
     spec = dict(property=pid, **spec)
     json.dump(spec, open(os.path.join(D, pid + ".json"), "w"), indent=1)
